@@ -217,7 +217,7 @@ impl DataKeeper {
 
 // (contract of fold_state.rs + frame)
 //@ lift crates/air-lib/trace-handler/src/data_keeper/keeper.rs :: impl DataKeeper :: fn prev_slider_mut
-//@ props C01 C09 C10
+//@ props C01 C09 C10 C08
 //@ ret r
 //@ spec
         ensures *r == old(self).prev_ctx.slider, final(self).prev_ctx.slider == *final(r),
@@ -225,7 +225,7 @@ impl DataKeeper {
 //@ end
 
 //@ lift crates/air-lib/trace-handler/src/data_keeper/keeper.rs :: impl DataKeeper :: fn current_slider_mut
-//@ props C01 C09 C10
+//@ props C01 C09 C10 C08
 //@ ret r
 //@ spec
         ensures *r == old(self).current_ctx.slider, final(self).current_ctx.slider == *final(r),
@@ -249,7 +249,7 @@ impl CtxState {
 
 // (contract of slider.rs, in the `restored` vocabulary of fold_state.rs, + frame)
 //@ lift crates/air-lib/trace-handler/src/state_automata/utils.rs :: fn update_ctx_states
-//@ props C01 C09 C10
+//@ props C01 C09 C10 C08
 //@ spec
     requires old(data_keeper).wf()
     ensures final(data_keeper).wf(), final(data_keeper).same_traces(old(data_keeper)),
@@ -297,7 +297,7 @@ impl CtxStateHandler {
 
 // (contract of fold_state.rs + frame)
 //@ lift crates/air-lib/trace-handler/src/state_automata/par_fsm/state_handler.rs :: impl CtxStateHandler :: fn handle_subgraph_end
-//@ props C01 C09 C10
+//@ props C01 C09 C10 C08
 //@ spec
         requires old(data_keeper).wf()
         ensures final(data_keeper).wf(), final(data_keeper).same_traces(old(data_keeper)),
@@ -370,7 +370,7 @@ pub open spec fn left_end(o: TraceSlider, a: TraceSlider, s: CtxState, len: u32)
 impl ParFSM {
 // (contract of fold_state.rs + frame)
 //@ lift crates/air-lib/trace-handler/src/state_automata/par_fsm.rs :: impl ParFSM :: fn prepare_sliders
-//@ props C01 C09 C10
+//@ props C01 C09 C10 C08
 //@ ret r
 //@ spec
         requires old(data_keeper).wf()           // nothing about the par sizes: they are hostile
@@ -388,7 +388,7 @@ impl ParFSM {
 //@ end
 
 //@ lift crates/air-lib/trace-handler/src/state_automata/par_fsm.rs :: impl ParFSM :: fn from_left_started
-//@ props C10 C01 C09
+//@ props C10 C01 C09 C08
 //@ ret r
 //@ spec
         requires old(data_keeper).wf(),
@@ -420,7 +420,7 @@ impl ParFSM {
 //@ end
 
 //@ lift crates/air-lib/trace-handler/src/state_automata/par_fsm.rs :: impl ParFSM :: fn left_completed
-//@ props C10 C01 C09
+//@ props C10 C01 C09 C08
 //@ spec
         requires
             inv(*old(self), *old(data_keeper)),      // the one assumption: follows from `inv` after from_left_started by inv_grows
@@ -447,7 +447,7 @@ impl ParFSM {
 
 // (Verus rejects a `mut self` parameter: `fn f(mut self)` is spelled as its definition `fn f(self) { let mut this = self; .. }`)
 //@ lift crates/air-lib/trace-handler/src/state_automata/par_fsm.rs :: impl ParFSM :: fn right_completed
-//@ props C10 C01 C09
+//@ props C10 C01 C09 C08
 //@ sig 1 "mut self" => "self"
 //@ rewrite 4 "self." => "this."
 //@ before "self.par_builder.track"
